@@ -17,9 +17,9 @@ def _parse_limit(limit, x, logx, reduction):
     autox = False
     if limit is None:
         if reduction == "min":
-            limit = finmin(x.values)
+            limit = float(finmin(x.values))
         elif reduction == "max":
-            limit = finmax(x.values)
+            limit = float(finmax(x.values))
         else:
             raise RuntimeError(
                 f"_parse_limit: unknown reduction operation {reduction}."
@@ -138,7 +138,15 @@ def histogram2d(
     ymin, autoymin = _parse_limit(ymin, y, logy, "min")
     ymax, autoymax = _parse_limit(ymax, y, logy, "max")
 
-    # Protect against empty plots if xmin==xmax or ymin==ymax
+    # Protect against empty plots if xmin==xmax or ymin==ymax, or if they are so
+    # close that the padding of the automatic limits would be lost in rounding
+    def _too_close(a, b):
+        return abs(b - a) <= 32 * np.spacing(max(abs(a), abs(b)))
+
+    if autoxmin and autoxmax and _too_close(xmin, xmax):
+        xmin = xmax = 0.5 * (xmin + xmax)
+    if autoymin and autoymax and _too_close(ymin, ymax):
+        ymin = ymax = 0.5 * (ymin + ymax)
     if xmin == xmax:
         if xmin == 0.0:
             xmin = -0.1
